@@ -32,7 +32,9 @@ func cfgFor(prop string, r *Rng) GenCfg {
 		f["storage"], f["resource"], f["control"] = 10, 2, 1
 	case "C23":
 		f["storage"], f["resource"], f["container"], f["attachment"] = 3, 6, 4, 1
+		f["contract"], f["capability"] = 2, 2 // contract values and capability controllers live in storage domains of their own
 		c.BigRate = 0.3
+		c.ScnRate = 0.1
 	case "C24":
 		f["storage"], f["resource"], f["container"], f["control"] = 4, 3, 2, 2
 		f["contract"], f["capability"], f["hostsvc"] = 2, 1, 1 // program effects other than storage writes that reach the host mid-execution
